@@ -152,6 +152,7 @@ def errName : Err → String
   | .missingCall => "missingCall"
   | .badCall => "badToken"       -- indistinguishable on the wire ("Malformed state token")
   | .cast => "cast"
+  | .resolve => "resolveExt"
 
 def showInts (l : List Int) : String := ".".intercalate (l.map toString)
 
